@@ -39,7 +39,7 @@ CLAUSE → THEOREMS (→ what stays outside)
  8. "the pseudo-PIT flag is raised exactly when the observation and at least one member are at or below the
      censoring threshold"
       `isSudo_iff`; glue in front of pit / alpha: `checkEnsemble_spec`, `checkEnsemble_complete`
-      → known finding pit/pseudo_flag/eps_absorbed_at_large_threshold (floating point: censor + 1e-10 = censor from 1.7e6).
+      (the code compares `obs - censor` and `ens - censor` with EPS, which keeps the tolerance at large thresholds).
  9. "the Cramer-von Mises and Anderson-Darling statistics computed from values in [0, 1] equal their textbook
      formulas whatever the order of the data"
       `cvm_eq_textbook`, `cvm_perm_invariant`, `ad_eq_textbook`, `ad_perm_invariant` (sample in the open interval).
@@ -318,7 +318,7 @@ censoring threshold (within the code's `EPS`) -/
 theorem isSudo_iff (eps censor obs : α) (ens : List α) :
     isSudo eps censor obs ens = true ↔ (obs < censor + eps ∧ ∃ a ∈ ens, a < censor + eps) := by
   unfold isSudo
-  simp only [Bool.and_eq_true, decide_eq_true_eq, List.length_pos_iff, ne_eq]
+  simp only [Bool.and_eq_true, decide_eq_true_eq, List.length_pos_iff, ne_eq, sub_lt_iff_lt_add']
   constructor
   · rintro ⟨h1, h2⟩
     refine ⟨h1, ?_⟩
